@@ -140,8 +140,9 @@ def adversarial(rng, tier):
     tr = box(b"trak", b"".join(box(b"mdia", b"") for _ in range(300)))
     out.append(case_dense("strict", 4096, None, f + md + box(b"moov", tr)))
     # very many top-level boxes that are only skipped (heap must not grow with their number), before, between and after the media
-    # (the model reads byte lists: a few thousand boxes is what it runs in seconds; at limit 1024 the heap bound is 32 KiB, which
-    # 24 bytes per box would exceed from about 1400 boxes on)
+    # (at limit 1024 the heap bound is 32 KiB, which 24 bytes per box would exceed from about 1400 boxes on; the metered model keeps
+    # the whole operation trace, so a few thousand boxes is what it runs in seconds - 65537 and more boxes are in C09's stream, where
+    # the plain model runs them in a fraction of a second)
     for nb in ((3000,) if tier == "quick" else (3000, 6000)):
         fill = b"".join(box(rng.choice([b"free", b"skip"]), b"") for _ in range(nb))
         mds = b"".join(box(b"mdat", b"ab") for _ in range(nb // 2))
@@ -575,7 +576,7 @@ def wgen(run):
     # files made of very many chunks: the peak heap is a constant, so it cannot grow with the number of animation frames (lossy and
     # lossless), of unknown chunks after the image or inside a frame (built inside the harness: prefix ++ unit x count ++ suffix).
     # The counts are chosen so that a growth of a few dozen bytes per chunk already exceeds the constant in the thorough tier.
-    for count in ((20000,) if quick else (20000, 1000000)):
+    for count in ((70000,) if quick else (70000, 1000000)):
         units = [("frames-lossy", W.mk(b"ANMF", 1, 1), W.ANIM),
                  ("frames-lossless", W.mk(b"ANMF", 1, 1, inner=W.mk(b"VP8L", 1, 1)), W.ANIM),
                  ("frames-unknown-inside", W.mk(b"ANMF", 1, 1, inner=W.mk(b"VP8 ") + W.mk(b"UNKN") + W.mk(b"UNKN")), W.ANIM)]
